@@ -848,8 +848,12 @@ fn tkey(i: u8) -> (secp256k1::SecretKey, secp256k1::PublicKey, TransparentAddres
 
 struct Base {
     name: &'static str,
+    /// the Creator's output
+    pre: Pczt,
     /// io-finalised PCZT
     pczt: Pczt,
+    /// v6: the real Orchard anchor, and the spend's action index and witness, installed at proving time
+    deferred: Option<(orchard::Anchor, usize, orchard::tree::MerklePath)>,
     /// transparent spending keys by input index
     tkeys: Vec<secp256k1::SecretKey>,
     orchard_ask: Option<(usize, orchard::keys::SpendAuthorizingKey)>,
@@ -883,9 +887,9 @@ fn base_transparent(seed: u64) -> Base {
     }
     let PcztResult { pczt_parts, .. } =
         builder.build_for_pczt(ChaCha20Rng::seed_from_u64(seed), &zip317::FeeRule::standard()).expect("build_for_pczt");
-    let pczt = Creator::build_from_parts(pczt_parts).expect("creator");
-    let pczt = IoFinalizer::new(pczt).finalize_io().expect("io finalizer");
-    Base { name: "transparent", pczt, tkeys, orchard_ask: None, ironwood_ask: None, sapling_ask: None }
+    let pre = Creator::build_from_parts(pczt_parts).expect("creator");
+    let pczt = IoFinalizer::new(pre.clone()).finalize_io().expect("io finalizer");
+    Base { name: "transparent", pre, pczt, tkeys, orchard_ask: None, ironwood_ask: None, sapling_ask: None, deferred: None }
 }
 
 /// 2 P2PKH inputs -> 2 Orchard outputs, v5 (pczt/tests/end_to_end.rs::transparent_to_orchard).
@@ -920,9 +924,9 @@ fn base_t2o(seed: u64) -> Base {
         .expect("orchard change");
     let PcztResult { pczt_parts, .. } =
         builder.build_for_pczt(ChaCha20Rng::seed_from_u64(seed), &zip317::FeeRule::standard()).expect("build_for_pczt");
-    let pczt = Creator::build_from_parts(pczt_parts).expect("creator");
-    let pczt = IoFinalizer::new(pczt).finalize_io().expect("io finalizer");
-    Base { name: "t2o", pczt, tkeys, orchard_ask: None, ironwood_ask: None, sapling_ask: None }
+    let pre = Creator::build_from_parts(pczt_parts).expect("creator");
+    let pczt = IoFinalizer::new(pre.clone()).finalize_io().expect("io finalizer");
+    Base { name: "t2o", pre, pczt, tkeys, orchard_ask: None, ironwood_ask: None, sapling_ask: None, deferred: None }
 }
 
 
@@ -1386,6 +1390,109 @@ fn run_case(base_l: &V, case: &J, b: &Binding, trees: &[Vec<u64>], alt_seed: usi
 }
 
 
+
+// ---- bases with a real shielded spend -----------------------------------------------------------
+
+use orchard::tree::MerkleHashOrchard;
+use shardtree::{ShardTree, store::memory::MemoryShardStore};
+use zcash_note_encryption::try_note_decryption;
+use zcash_primitives::transaction::builder::DeferredPcztBuilder;
+use zcash_protocol::memo::Memo;
+
+struct OrchardKeys {
+    ask: orchard::keys::SpendAuthorizingKey,
+    fvk: orchard::keys::FullViewingKey,
+}
+
+fn orchard_keys() -> OrchardKeys {
+    let sk = orchard::keys::SpendingKey::from_bytes([0; 32]).unwrap();
+    OrchardKeys { ask: orchard::keys::SpendAuthorizingKey::from(&sk), fvk: orchard::keys::FullViewingKey::from(&sk) }
+}
+
+/// A received Orchard-pool note of 1 000 000 zatoshis with the one-leaf tree that holds it.
+fn orchard_note(k: &OrchardKeys, rng: &mut ChaCha20Rng) -> (orchard::Note, orchard::Anchor, orchard::tree::MerklePath) {
+    let recipient = k.fvk.address_at(0u32, orchard::keys::Scope::External);
+    let version = orchard::bundle::BundleVersion::orchard_v2();
+    let mut b = orchard::builder::Builder::new(orchard::builder::BundleType::DEFAULT, version, version.default_flags(), orchard::Anchor::empty_tree())
+        .unwrap();
+    b.add_output(None, recipient, orchard::value::NoteValue::from_raw(1_000_000), Memo::Empty.encode().into_bytes()).unwrap();
+    let (bundle, meta) = b.build::<i64>(&mut *rng).unwrap().unwrap();
+    let action = bundle.actions().get(meta.output_action_index(0).unwrap()).unwrap();
+    let domain = orchard::note_encryption::OrchardDomain::for_action(action);
+    let (note, _, _) = try_note_decryption(&domain, &k.fvk.to_ivk(orchard::keys::Scope::External).prepare(), action).unwrap();
+    let cmx: orchard::note::ExtractedNoteCommitment = note.commitment().into();
+    let leaf = MerkleHashOrchard::from_cmx(&cmx);
+    let mut tree = ShardTree::<_, 32, 16>::new(MemoryShardStore::<MerkleHashOrchard, u32>::empty(), 100);
+    tree.append(leaf, incrementalmerkletree::Retention::Marked).unwrap();
+    tree.checkpoint(9_999_999).unwrap();
+    let path = tree.witness_at_checkpoint_depth(0.into(), 0).unwrap().unwrap();
+    let anchor = path.root(leaf);
+    (note, anchor.into(), path.into())
+}
+
+/// Orchard spend -> 2 Orchard outputs, v5 (pczt/tests/end_to_end.rs::orchard_to_orchard).
+fn base_o2o(seed: u64) -> Base {
+    let k = orchard_keys();
+    let mut rng = ChaCha20Rng::seed_from_u64(seed ^ 0x0202);
+    let (note, anchor, path) = orchard_note(&k, &mut rng);
+    let mut builder = Builder::new(network(false), 10_000_000.into(), standard_cfg(None, Some(anchor), None));
+    builder.add_orchard_spend::<zip317::FeeRule>(k.fvk.clone(), note, path).expect("orchard spend");
+    builder
+        .add_orchard_output::<zip317::FeeRule>(
+            Some(k.fvk.to_ovk(orchard::keys::Scope::External)),
+            k.fvk.address_at(0u32, orchard::keys::Scope::External),
+            Zatoshis::const_from_u64(100_000),
+            MemoBytes::empty(),
+        )
+        .expect("output");
+    builder
+        .add_orchard_output::<zip317::FeeRule>(
+            Some(k.fvk.to_ovk(orchard::keys::Scope::Internal)),
+            k.fvk.address_at(0u32, orchard::keys::Scope::Internal),
+            Zatoshis::const_from_u64(890_000),
+            MemoBytes::empty(),
+        )
+        .expect("change");
+    let PcztResult { pczt_parts, orchard_meta, .. } = builder.build_for_pczt(rng, &zip317::FeeRule::standard()).expect("build_for_pczt");
+    let idx = orchard_meta.spend_action_index(0).unwrap();
+    let pre = Creator::build_from_parts(pczt_parts).expect("creator");
+    let pczt = IoFinalizer::new(pre.clone()).finalize_io().expect("io finalizer");
+    Base { name: "o2o", pre, pczt, tkeys: vec![], orchard_ask: Some((idx, k.ask)), ironwood_ask: None, sapling_ask: None, deferred: None }
+}
+
+/// Orchard spend -> Ironwood output, v6, anchors and the spend witness deferred to proving time
+/// (pczt/tests/end_to_end.rs::builder_can_defer_anchors_until_proving).
+fn base_o2i(seed: u64) -> Base {
+    let k = orchard_keys();
+    let mut rng = ChaCha20Rng::seed_from_u64(seed ^ 0x0606);
+    let (note, anchor, path) = orchard_note(&k, &mut rng);
+    let mut builder =
+        DeferredPcztBuilder::new::<zip317::FeeRule>(network(true), 10_000_000.into(), BundlePadding::DEFAULT, BundlePadding::DEFAULT).expect("deferred builder");
+    builder.add_orchard_spend::<zip317::FeeRule>(k.fvk.clone(), note).expect("orchard spend");
+    builder
+        .add_ironwood_output::<zip317::FeeRule>(
+            Some(k.fvk.to_ovk(orchard::keys::Scope::External)),
+            k.fvk.address_at(0u32, orchard::keys::Scope::External),
+            Zatoshis::const_from_u64(980_000),
+            MemoBytes::empty(),
+        )
+        .expect("ironwood output");
+    let PcztResult { pczt_parts, orchard_meta, .. } = builder.build_for_pczt(rng, &zip317::FeeRule::standard()).expect("build_for_pczt");
+    let idx = orchard_meta.spend_action_index(0).unwrap();
+    let pre = Creator::build_from_parts(pczt_parts).expect("creator");
+    let pczt = IoFinalizer::new(pre.clone()).finalize_io().expect("io finalizer");
+    Base {
+        name: "o2i_v6",
+        pre,
+        pczt,
+        tkeys: vec![],
+        orchard_ask: Some((idx, k.ask)),
+        ironwood_ask: None,
+        sapling_ask: None,
+        deferred: Some((anchor, idx, path)),
+    }
+}
+
 struct MergeInput {
     trees: BTreeMap<usize, Vec<Vec<u64>>>,
     cases: Vec<J>,
@@ -1413,7 +1520,7 @@ fn logical_of(p: &Pczt) -> V {
 }
 
 fn bases_for(tier: &str, seed: u64) -> Vec<Base> {
-    let mut v = vec![base_transparent(seed), base_t2o(seed)];
+    let mut v = vec![base_transparent(seed), base_t2o(seed), base_o2o(seed), base_o2i(seed)];
     if tier == "thorough" {
         let _ = &mut v;
     }
@@ -1511,6 +1618,284 @@ fn cmd_merge(cases_path: &str, tier: &str) {
     );
 }
 
+
+// =================================================================================================
+// zip244: own v5 transaction identifier and transparent signature digest over decoded effect slots
+// =================================================================================================
+mod zip244 {
+    use super::{Form, S, V, s_action, s_global, s_ooutput, s_orchard, s_ospend, s_pczt, s_sapling, s_soutput, s_sspend, s_tin, s_tout, s_transparent};
+
+    fn h(personal: &[u8], data: &[u8]) -> [u8; 32] {
+        let mut p = [0u8; 16];
+        p[..personal.len()].copy_from_slice(personal);
+        blake2b_simd::Params::new().hash_length(32).personal(&p).hash(data).as_bytes().try_into().unwrap()
+    }
+
+    fn compact_size(n: usize, out: &mut Vec<u8>) {
+        if n < 253 {
+            out.push(n as u8)
+        } else if n <= 0xffff {
+            out.push(253);
+            out.extend_from_slice(&(n as u16).to_le_bytes())
+        } else {
+            out.push(254);
+            out.extend_from_slice(&(n as u32).to_le_bytes())
+        }
+    }
+
+    pub struct Tx<'a> {
+        l: &'a V,
+    }
+
+    pub const SIGHASH_NONE: u8 = 2;
+    pub const SIGHASH_SINGLE: u8 = 3;
+    pub const SIGHASH_ACP: u8 = 0x80;
+
+    impl<'a> Tx<'a> {
+        pub fn new(l: &'a V) -> Self {
+            Tx { l }
+        }
+        fn g(&self, f: &str) -> &V {
+            self.l.field(&s_pczt(Form::Logical), "global").field(&s_global(), f)
+        }
+        fn tins(&self) -> &Vec<V> {
+            self.l.field(&s_pczt(Form::Logical), "transparent").field(&s_transparent(), "inputs").seq()
+        }
+        fn touts(&self) -> &Vec<V> {
+            self.l.field(&s_pczt(Form::Logical), "transparent").field(&s_transparent(), "outputs").seq()
+        }
+        pub fn version(&self) -> u64 {
+            self.g("tx_version").u()
+        }
+        /// BIP 370 "Determining Lock Time"
+        pub fn lock_time(&self) -> Option<u32> {
+            let st = s_tin();
+            let times: Vec<Option<u64>> = self.tins().iter().map(|i| i.field(&st, "required_time_lock_time").opt().map(|v| v.u())).collect();
+            let heights: Vec<Option<u64>> = self.tins().iter().map(|i| i.field(&st, "required_height_lock_time").opt().map(|v| v.u())).collect();
+            let any = times.iter().any(|t| t.is_some()) || heights.iter().any(|t| t.is_some());
+            if !any {
+                return Some(self.g("fallback_lock_time").opt().map(|v| v.u()).unwrap_or(0) as u32);
+            }
+            // an input that names only one kind of lock time supports only that kind
+            let height_ok = times.iter().zip(&heights).all(|(t, h)| !(t.is_some() && h.is_none()));
+            let time_ok = times.iter().zip(&heights).all(|(t, h)| !(h.is_some() && t.is_none()));
+            if height_ok {
+                heights.iter().flatten().max().map(|v| *v as u32)
+            } else if time_ok {
+                times.iter().flatten().max().map(|v| *v as u32)
+            } else {
+                None
+            }
+        }
+        fn header_digest(&self) -> Option<[u8; 32]> {
+            let mut d = vec![];
+            d.extend_from_slice(&((self.version() as u32) | (1 << 31)).to_le_bytes());
+            d.extend_from_slice(&(self.g("version_group_id").u() as u32).to_le_bytes());
+            d.extend_from_slice(&(self.g("consensus_branch_id").u() as u32).to_le_bytes());
+            d.extend_from_slice(&self.lock_time()?.to_le_bytes());
+            d.extend_from_slice(&(self.g("expiry_height").u() as u32).to_le_bytes());
+            Some(h(b"ZTxIdHeadersHash", &d))
+        }
+        fn prevout(&self, i: &V) -> Vec<u8> {
+            let st = s_tin();
+            let mut d = i.field(&st, "prevout_txid").bytes().to_vec();
+            d.extend_from_slice(&(i.field(&st, "prevout_index").u() as u32).to_le_bytes());
+            d
+        }
+        fn sequence(&self, i: &V) -> [u8; 4] {
+            (i.field(&s_tin(), "sequence").opt().map(|v| v.u()).unwrap_or(0xffff_ffff) as u32).to_le_bytes()
+        }
+        fn txout(value: u64, script: &[u8]) -> Vec<u8> {
+            let mut d = value.to_le_bytes().to_vec();
+            compact_size(script.len(), &mut d);
+            d.extend_from_slice(script);
+            d
+        }
+        fn prevouts_digest(&self) -> [u8; 32] {
+            h(b"ZTxIdPrevoutHash", &self.tins().iter().flat_map(|i| self.prevout(i)).collect::<Vec<u8>>())
+        }
+        fn sequence_digest(&self) -> [u8; 32] {
+            h(b"ZTxIdSequencHash", &self.tins().iter().flat_map(|i| self.sequence(i)).collect::<Vec<u8>>())
+        }
+        fn output_bytes(&self, o: &V) -> Vec<u8> {
+            let st = s_tout();
+            Self::txout(o.field(&st, "value").u(), o.field(&st, "script_pubkey").bytes())
+        }
+        fn outputs_digest(&self) -> [u8; 32] {
+            h(b"ZTxIdOutputsHash", &self.touts().iter().flat_map(|o| self.output_bytes(o)).collect::<Vec<u8>>())
+        }
+        fn transparent_digest(&self) -> [u8; 32] {
+            if self.tins().is_empty() && self.touts().is_empty() {
+                return h(b"ZTxIdTranspaHash", &[]);
+            }
+            let mut d = self.prevouts_digest().to_vec();
+            d.extend_from_slice(&self.sequence_digest());
+            d.extend_from_slice(&self.outputs_digest());
+            h(b"ZTxIdTranspaHash", &d)
+        }
+        fn sapling_digest(&self) -> Option<[u8; 32]> {
+            let ss = s_sapling(true);
+            let b = self.l.field(&s_pczt(Form::Logical), "sapling");
+            let spends = b.field(&ss, "spends").seq();
+            let outputs = b.field(&ss, "outputs").seq();
+            if spends.is_empty() && outputs.is_empty() {
+                return Some(h(b"ZTxIdSaplingHash", &[]));
+            }
+            let sd = if spends.is_empty() {
+                h(b"ZTxIdSSpendsHash", &[])
+            } else {
+                let anchor = b.field(&ss, "anchor").opt()?.bytes().to_vec();
+                let sp = s_sspend();
+                let (mut c, mut n) = (vec![], vec![]);
+                for s in spends {
+                    c.extend_from_slice(s.field(&sp, "nullifier").bytes());
+                    n.extend_from_slice(s.field(&sp, "cv").bytes());
+                    n.extend_from_slice(&anchor);
+                    n.extend_from_slice(s.field(&sp, "rk").bytes());
+                }
+                let mut d = h(b"ZTxIdSSpendCHash", &c).to_vec();
+                d.extend_from_slice(&h(b"ZTxIdSSpendNHash", &n));
+                h(b"ZTxIdSSpendsHash", &d)
+            };
+            let od = if outputs.is_empty() {
+                h(b"ZTxIdSOutputHash", &[])
+            } else {
+                let so = s_soutput();
+                let (mut c, mut m, mut n) = (vec![], vec![], vec![]);
+                for o in outputs {
+                    let enc = o.field(&so, "enc_ciphertext").bytes();
+                    if enc.len() != 580 {
+                        return None;
+                    }
+                    c.extend_from_slice(o.field(&so, "cmu").bytes());
+                    c.extend_from_slice(o.field(&so, "ephemeral_key").bytes());
+                    c.extend_from_slice(&enc[..52]);
+                    m.extend_from_slice(&enc[52..564]);
+                    n.extend_from_slice(o.field(&so, "cv").bytes());
+                    n.extend_from_slice(&enc[564..]);
+                    n.extend_from_slice(o.field(&so, "out_ciphertext").bytes());
+                }
+                let mut d = h(b"ZTxIdSOutC__Hash", &c).to_vec();
+                d.extend_from_slice(&h(b"ZTxIdSOutM__Hash", &m));
+                d.extend_from_slice(&h(b"ZTxIdSOutN__Hash", &n));
+                h(b"ZTxIdSOutputHash", &d)
+            };
+            let V::I(vs) = b.field(&ss, "value_sum") else { return None };
+            let mut d = sd.to_vec();
+            d.extend_from_slice(&od);
+            d.extend_from_slice(&(*vs as i64).to_le_bytes());
+            Some(h(b"ZTxIdSaplingHash", &d))
+        }
+        fn orchard_digest(&self) -> Option<[u8; 32]> {
+            let so = s_orchard(Form::Logical);
+            let b = self.l.field(&s_pczt(Form::Logical), "orchard");
+            let acts = b.field(&so, "actions").seq();
+            if acts.is_empty() {
+                return Some(h(b"ZTxIdOrchardHash", &[]));
+            }
+            let (sa, sp, sout) = (s_action(Form::Logical), s_ospend(Form::Logical), s_ooutput(Form::Logical));
+            let (mut c, mut m, mut n) = (vec![], vec![], vec![]);
+            for a in acts {
+                let (spend, out) = (a.field(&sa, "spend"), a.field(&sa, "output"));
+                let enc = match out.field(&sout, "enc_ciphertext") {
+                    V::Enum(0, e) => e.bytes(),
+                    _ => return None, // compact form: needs resolution, not judged here
+                };
+                if enc.len() != 580 {
+                    return None;
+                }
+                c.extend_from_slice(spend.field(&sp, "nullifier").bytes());
+                c.extend_from_slice(out.field(&sout, "cmx").opt()?.bytes());
+                c.extend_from_slice(out.field(&sout, "ephemeral_key").bytes());
+                c.extend_from_slice(&enc[..52]);
+                m.extend_from_slice(&enc[52..564]);
+                n.extend_from_slice(a.field(&sa, "cv_net").opt()?.bytes());
+                n.extend_from_slice(spend.field(&sp, "rk").bytes());
+                n.extend_from_slice(&enc[564..]);
+                n.extend_from_slice(out.field(&sout, "out_ciphertext").bytes());
+            }
+            let mut d = h(b"ZTxIdOrcActCHash", &c).to_vec();
+            d.extend_from_slice(&h(b"ZTxIdOrcActMHash", &m));
+            d.extend_from_slice(&h(b"ZTxIdOrcActNHash", &n));
+            d.push(b.field(&so, "flags").u() as u8);
+            let V::Rec(vs) = b.field(&so, "value_sum") else { return None };
+            let bal = if vs[1].u() == 1 { -(vs[0].u() as i64) } else { vs[0].u() as i64 };
+            d.extend_from_slice(&bal.to_le_bytes());
+            d.extend_from_slice(b.field(&so, "anchor").opt()?.bytes());
+            Some(h(b"ZTxIdOrchardHash", &d))
+        }
+        fn root(&self, transparent: [u8; 32]) -> Option<[u8; 32]> {
+            let mut personal = b"ZcashTxHash_".to_vec();
+            personal.extend_from_slice(&(self.g("consensus_branch_id").u() as u32).to_le_bytes());
+            let mut d = self.header_digest()?.to_vec();
+            d.extend_from_slice(&transparent);
+            d.extend_from_slice(&self.sapling_digest()?);
+            d.extend_from_slice(&self.orchard_digest()?);
+            Some(h(&personal, &d))
+        }
+        /// ZIP 244 T: the transaction identifier of a v5 transaction (None: not a v5 transaction, or
+        /// the value is in a compact form this oracle does not expand).
+        pub fn txid(&self) -> Option<[u8; 32]> {
+            if self.version() != 5 {
+                return None;
+            }
+            self.root(self.transparent_digest())
+        }
+        /// ZIP 244 S.2: the digest a signature of transparent input `idx` with `hash_type` commits to.
+        pub fn transparent_sighash(&self, idx: usize, hash_type: u8) -> Option<[u8; 32]> {
+            if self.version() != 5 {
+                return None;
+            }
+            let st = s_tin();
+            let acp = hash_type & SIGHASH_ACP != 0;
+            let base = hash_type & !SIGHASH_ACP;
+            let ins = self.tins();
+            let mut d = vec![hash_type];
+            d.extend_from_slice(&if acp { h(b"ZTxIdPrevoutHash", &[]) } else { self.prevouts_digest() });
+            d.extend_from_slice(&if acp {
+                h(b"ZTxTrAmountsHash", &[])
+            } else {
+                h(b"ZTxTrAmountsHash", &ins.iter().flat_map(|i| i.field(&st, "value").u().to_le_bytes()).collect::<Vec<u8>>())
+            });
+            d.extend_from_slice(&if acp {
+                h(b"ZTxTrScriptsHash", &[])
+            } else {
+                let mut x = vec![];
+                for i in ins {
+                    let sc = i.field(&st, "script_pubkey").bytes();
+                    compact_size(sc.len(), &mut x);
+                    x.extend_from_slice(sc);
+                }
+                h(b"ZTxTrScriptsHash", &x)
+            });
+            d.extend_from_slice(&if acp { h(b"ZTxIdSequencHash", &[]) } else { self.sequence_digest() });
+            d.extend_from_slice(&if base == SIGHASH_SINGLE {
+                match self.touts().get(idx) {
+                    Some(o) => h(b"ZTxIdOutputsHash", &self.output_bytes(o)),
+                    None => h(b"ZTxIdOutputsHash", &[]),
+                }
+            } else if base == SIGHASH_NONE {
+                h(b"ZTxIdOutputsHash", &[])
+            } else {
+                self.outputs_digest()
+            });
+            let i = ins.get(idx)?;
+            let mut x = self.prevout(i);
+            x.extend_from_slice(&i.field(&st, "value").u().to_le_bytes());
+            let sc = i.field(&st, "redeem_script").opt().map(|v| v.bytes()).unwrap_or(i.field(&st, "script_pubkey").bytes());
+            let _ = sc; // ZIP 244 commits to the scriptPubKey of the coin being spent
+            let spk = i.field(&st, "script_pubkey").bytes();
+            compact_size(spk.len(), &mut x);
+            x.extend_from_slice(spk);
+            x.extend_from_slice(&self.sequence(i));
+            d.extend_from_slice(&h(b"Zcash___TxInHash", &x));
+            self.root(h(b"ZTxIdTranspaHash", &d))
+        }
+    }
+    #[allow(dead_code)]
+    fn _unused(_: &S) {}
+}
+
 fn main() {
     quiet_panics();
     let args: Vec<String> = std::env::args().collect();
@@ -1570,7 +1955,9 @@ fn probe_lock() {
 }
 
 fn probe() {
-    for b in [base_transparent(1), base_t2o(1)] {
+    for b in [base_transparent(1), base_t2o(1), base_o2o(1), base_o2i(1)] {
+        let l = logical_of(&b.pczt);
+        println!("own zip244 txid: {:?}", zip244::Tx::new(&l).txid().map(|mut t| { t.reverse(); hex(&t) }));
         let bytes = b.pczt.clone().serialize().unwrap();
         let (ver, l) = decode_pczt(&bytes).unwrap();
         println!("== {} ver {ver} len {} own==code {} txid {:?}", b.name, bytes.len(), canonical_bytes(&l) == bytes, pczt_txid(&b.pczt));
